@@ -12,7 +12,7 @@ MC_Shapes == {<<3,2>>}
 MC_IdSets == {{2,3,5}}
 MC_MaxExtra == 1
 MC_SeedChoices == {5,300}
-MC_Faults == {"none","seed","comm","share","fixed","few"}
+MC_Faults == {"none","seed","comm","share","share2","fixed","few"}
 MC_SeedFaults == {"last","append","append0","trunc","empty"}
 MC_FixedAlphas == {0,1,4}
 MC_KeyChoices == {3}
